@@ -507,6 +507,23 @@ func (x *c13srcX) mprEof(stmts []ast.Stmt, ind string) string {
 	return ind + x.fail(s, "statement of the EOF block: %s", text)
 }
 
+// c13srcUnwrap strips parentheses and conversions between integer types
+func c13srcUnwrap(p *packages.Package, e ast.Expr) ast.Expr {
+	for {
+		switch y := e.(type) {
+		case *ast.ParenExpr:
+			e = y.X
+			continue
+		case *ast.CallExpr:
+			if tv, ok := p.TypesInfo.Types[y.Fun]; ok && tv.IsType() && len(y.Args) == 1 && isInt(tv.Type) {
+				e = y.Args[0]
+				continue
+			}
+		}
+		return e
+	}
+}
+
 // scanAmmos of the jsonline decoder: the whole function, executed symbolically
 func (x *c13srcX) scanAmmos(stmts []ast.Stmt, ind string) string {
 	if len(stmts) == 0 {
@@ -549,7 +566,7 @@ func (x *c13srcX) scanAmmos(stmts []ast.Stmt, ind string) string {
 				x.env[lhs] = "length"
 				return x.scanAmmos(rest, ind)
 			}
-			if be, ok := y.Rhs[0].(*ast.BinaryExpr); ok && be.Op == token.REM {
+			if be, ok := c13srcUnwrap(x.p, y.Rhs[0]).(*ast.BinaryExpr); ok && be.Op == token.REM {
 				v := mangle(lhs)
 				x.env[lhs] = v
 				return ind + "(Pandora.Model.C13.tmodC " + x.intE(be.X) + " " + x.intE(be.Y) + ").bind fun " + v + " =>\n" + x.scanAmmos(rest, ind)
